@@ -446,11 +446,18 @@ def use_profile(f):
                     if 'Layouter' in t or 'Region' in t:
                         continue
                     o = origin(a, hops, 1)
-                    if o.startswith(('#', 'const ')) and o != '#0':
+                    if o.startswith(('#', 'const ', '(')) and o != '#0':
                         inner.append(o)
             return 'result of ' + short(c) + ('(' + ', '.join(inner) + ')' if inner else '')
         if k in ('bin', 'un') and e.get('f'):
             return 'result of ' + short(norm_(e['f'])) + ':' + str(e.get('op'))
+        if k == 'bin' and e.get('op') in ('+', '-', '*', '/', '%', '<<', '>>'):
+            # built-in arithmetic handed to a call (a bound, a width, an offset): its shape over named leaves, e.g. `((const M + literal) - #3)`
+            if nest < 3:
+                a_, b_ = origin(e['a'], hops, max(nest, 1) + 1), origin(e['b'], hops, max(nest, 1) + 1)
+                if any(x.startswith(('#', 'const ', 'result of', '(')) for x in (a_, b_)):
+                    return '(' + a_ + ' ' + str(e['op']) + ' ' + b_ + ')'
+            return 'expr'
         if k == 'field' and not str(e.get('n', '')).isdigit():
             o = origin(e['e'], hops, nest)
             return o + '.' + e['n'] if o.startswith('#') else o
